@@ -77,7 +77,7 @@ REACH = ["crash_points", "crash_inside_schema_script", "crash_between_insert_and
          "crash_after_commit", "crash_after_close", "wal_present_at_crash", "shm_present_at_crash", "reopen_cycles",
          "second_crash_during_recovery", "inflight_record_visible", "inflight_record_absent", "overflow_row",
          "batch_committed", "batch_left_by_error", "batch_left_by_ignorecommits", "stored_token_offered_again_without_content",
-         "crash_before_first_page_written", "stored_attestation_delivered_again"]
+         "crash_before_first_page_written", "stored_attestation_delivered_again", "commit_failed_disk_full", "insert_raised_after_failed_commit"]
 SHRINK_FIELDS = ("ops",)
 
 ROOT = os.path.dirname(os.path.dirname(os.path.abspath(__file__)))
@@ -100,6 +100,10 @@ class _BatchAbort(Exception):
 # =========================================================================== crash-point recorder + sqlite3 proxy
 class _State:
     recorder = None          # consulted by the proxy at connect() time
+    commit_fail_at = None    # fault: the N-th commit() of the workload fails like a full disk (SQLite rolls the transaction back)
+    commits = 0
+    commit_failures = 0
+    in_insert = False        # (only commits made by the insert calls of the workload are failed, not those of opening a database)
 
 
 class _Recorder:
@@ -200,6 +204,13 @@ class _TracedConnection(_real_sqlite3.Connection):
     _c19 = None
 
     def commit(self) -> None:
+        if self._c19 is not None and _State.commit_fail_at is not None and _State.in_insert:
+            _State.commits += 1
+            if _State.commits == _State.commit_fail_at:
+                # ENOSPC / EFBIG / EIO while the transaction is written out: COMMIT fails and SQLite rolls the transaction back
+                _State.commit_failures += 1
+                super().rollback()
+                raise _real_sqlite3.OperationalError("database or disk is full")
         super().commit()
         if self._c19 is not None:
             self._c19[0].guarded("after_commit", self._c19[1])
@@ -335,7 +346,16 @@ class _Runner:
             self.records.append((kind, table, row))
             if any(isinstance(v, bytes) and len(v) > 8000 for v in row):
                 self.overflow += 1
-            orig(*args)
+            _State.in_insert = True
+            try:
+                orig(*args)
+            except _real_sqlite3.OperationalError:
+                if _State.commit_fail_at is None:
+                    raise
+                self.insert_errors = getattr(self, "insert_errors", 0) + 1     # the caller sees the error: not acknowledged
+                raise
+            finally:
+                _State.in_insert = False
             if self.batch_kind == kind:
                 # inside ``with database:`` commits are deferred by design: the insert counts as returned-and-durable only
                 # once the block has been left normally
@@ -401,9 +421,15 @@ class _Runner:
                 preceding = ps.tree.elements.get(after_md.token_pointer) if after_md is not None else None
                 token = ps.tree.add(_bytes(f"content/{p}/{cid}", csize), preceding)
                 metadata = Metadata.create(token, md_json, self.keys[p])
-                ps.add_credential(token, metadata, set())
+                if ps.add_credential(token, metadata, set()) is None:
+                    self.refused = [*getattr(self, "refused", []), (p, cid, op.get("after"), "add_credential")]
+                    return
             else:
                 cred = ps.create_credential(hashlib.sha3_256(f"attestation/{p}/{cid}".encode()).digest(), md_json, after_md)
+                if cred is None:
+                    # the pseudonym's own tree (as rebuilt from the database) refuses a token of its owner that follows a stored one
+                    self.refused = [*getattr(self, "refused", []), (p, cid, op.get("after"), "create_credential")]
+                    return
                 metadata = cred.metadata
                 token = ps.tree.elements[metadata.token_pointer]
             self.creds[(p, cid)] = (token, metadata)
@@ -920,10 +946,19 @@ def _run_inproc(c, case: dict, tmp: str, keys: list, tag: str = "w"):  # noqa: A
     ev = _Eval(c, keys, runner, sel, _uses(ops), snaproot, ops)
     with _Installed():
         _fresh_process_state()
+        _State.commit_fail_at, _State.commits, _State.commit_failures = case.get("commit_fail"), 0, 0
         try:
             for i, op in enumerate(ops):
                 _State.recorder = rec
-                runner.run_op(i, op)
+                try:
+                    runner.run_op(i, op)
+                except _real_sqlite3.OperationalError:
+                    if not _State.commit_failures:
+                        raise
+                    # the injected disk-full error reached the application: it gives up (the workload ends here)
+                    rec.check()
+                    ev.flush(rec)
+                    break
                 rec.check()
                 ev.flush(rec)
             runner.cur_op, runner.cur_kind = len(ops), "end"
@@ -932,6 +967,12 @@ def _run_inproc(c, case: dict, tmp: str, keys: list, tag: str = "w"):  # noqa: A
         finally:
             rec.enabled = False
             _State.recorder = None
+            if _State.commit_failures:
+                c.probe("commit_failed_disk_full", _State.commit_failures)
+                c.world.fault("commit_failed_disk_full", _State.commit_failures)
+            if getattr(runner, "insert_errors", 0):
+                c.probe("insert_raised_after_failed_commit", runner.insert_errors)
+            _State.commit_fail_at = None
             try:
                 runner.close_all()
             except Exception:  # noqa: BLE001, S110
@@ -942,6 +983,11 @@ def _run_inproc(c, case: dict, tmp: str, keys: list, tag: str = "w"):  # noqa: A
         c.probe("overflow_row", runner.overflow)
     if getattr(runner, "retokens", 0):
         c.probe("stored_token_offered_again_without_content", runner.retokens)
+    for p_, cid_, after_, how_ in getattr(runner, "refused", []):
+        c.violate("reload", "credential_refused_by_reloaded_tree",
+                  f"pseudonym {p_}: {how_} for credential {cid_} (following credential {after_}) returned None: the tree rebuilt from the "
+                  f"database does not accept a token of its owner that points back to a stored token")
+        break
     if getattr(runner, "reblobs", 0):
         c.probe("stored_attestation_delivered_again", runner.reblobs)
     for end, probe in (("ok", "batch_committed"), ("error", "batch_left_by_error"), ("ignore", "batch_left_by_ignorecommits")):
@@ -1342,7 +1388,11 @@ def _random_case(seed: int) -> dict:
             else:
                 out.append({"op": "batch", "db": dbk, "end": rng.choice(["ok", "ok", "error", "error", "ignore"]), "inner": [o]})
         ops = out
-    return {"scenario": "seeded", "seed": seed, "ops": ops, "crash": "all", "recovery": {"mod": 5, "rem": seed % 5}}
+    case = {"scenario": "seeded", "seed": seed, "ops": ops, "crash": "all", "recovery": {"mod": 5, "rem": seed % 5}}
+    if rng.random() < 0.15:
+        case["commit_fail"] = rng.randrange(1, 3 * len(ops) + 2)
+        case["recovery"] = "none"
+    return case
 
 
 def cases(tier: str, base_seed: int):  # noqa: ANN201
@@ -1351,6 +1401,13 @@ def cases(tier: str, base_seed: int):  # noqa: ANN201
         for r in range(split):
             yield {"scenario": "scripted", "name": name, "seed": 1000 + i, "ops": ops,
                    "crash": {"mod": split, "rem": r}, "recovery": "all"}
+    # fault: one commit() of the workload fails like a full disk (the transaction is rolled back); the insert that hit it must not
+    # count as made - crash points after it included
+    scripted_f = dict(_scripted())
+    for name, n_commits in (("three_credentials", 9), ("wallet_blobs", 4), ("two_pseudonyms_and_wallet", 14)):
+        for k in range(1, n_commits + 1):
+            yield {"scenario": "scripted", "name": name + "_commit_fails", "seed": 1700 + k, "ops": scripted_f[name],
+                   "crash": {"mod": 3, "rem": k % 3}, "recovery": "none", "commit_fail": k}
     # a pseudonym with a long chain (more tokens than the token tree's waiting area holds): few crash points, full reload each time
     chain = [{"op": "cred", "p": 0, "id": k, "after": k - 1 if k > 1 else None, "msize": 0, "csize": 0} for k in range(1, 131)]
     for r in ((7,) if tier == "quick" else (7, 19, 31)):
